@@ -950,4 +950,32 @@ theorem roundtrip_reachable_txs (ext : Ext) (cfg : Cfg) (g : Genesis) (st0 : Sto
   rw [runTxs_flatten ext cfg txs _ hs] at hp ⊢
   exact roundtrip_reachable ext cfg g st0 led _ hi hp
 
+/-! ### the default genesis (`types.DefaultGenesis`, `AppModuleBasic.DefaultGenesis`) -/
+
+/-- the default genesis passes validation, whatever the external functions are. -/
+theorem default_validates (ext : Ext) : Genesis.default.validate ext = true := by
+  simp [Genesis.validate, Genesis.default, Genesis.roleOk, noDup]
+
+/-- … and initialises (no threshold 0): the chain it builds exists. -/
+theorem default_initialises (ext : Ext) : ∃ st, Genesis.init ext [] Genesis.default = .ok st :=
+  ⟨Store.applyAll [] (initWrites ext Genesis.default),
+   by simp [Genesis.init, Genesis.default, must, bind, Except.bind, pure, Except.pure]⟩
+
+/-- **a chain started from the default genesis exports the default genesis with the documented defaults filled in**
+    (body size 8000, nonce 0, threshold 1) and no registry entry — and that export initialises the very same state
+    again (`export_init` and `init_export_partial` at the default genesis). -/
+theorem default_roundtrip (ext : Ext) (st : Store) (hi : Genesis.init ext [] Genesis.default = .ok st) :
+    ∃ g', exportG st = .ok g' ∧
+      g'.owner = [] ∧ g'.attesterManager = [] ∧ g'.pauser = [] ∧ g'.tokenController = [] ∧
+      g'.burnPaused = some false ∧ g'.sendPaused = some false ∧
+      g'.maxBody = some 8000 ∧ g'.nextNonce = some (0, 0) ∧ g'.threshold = some 1 ∧
+      g'.attesters = [] ∧ g'.limits = [] ∧ g'.pairs = [] ∧ g'.used = [] ∧ g'.messengers = [] := by
+  obtain ⟨g', he, h1, h2, h3, h4, h5, h6, h7, h8, h9, ha, hl, hp, hu, hm⟩ :=
+    export_init ext Genesis.default st (default_validates ext) hi
+  have nil_of {α} (l : List α) (h : ∀ x, x ∈ l ↔ x ∈ ([] : List α)) : l = [] := by
+    cases l with
+    | nil => rfl
+    | cons a t => exact absurd ((h a).mp (List.mem_cons_self ..)) (by simp)
+  exact ⟨g', he, h1, h2, h3, h4, h5, h6, h7, h8, h9, nil_of _ ha, nil_of _ hl, nil_of _ hp, nil_of _ hu, nil_of _ hm⟩
+
 end Cctp.C17
